@@ -46,7 +46,13 @@ build_fuzz() {
 fuzz_stage() {
     local id=$1 maxlen=$2
     local seed=${VERIF_SEED:-1}
-    local runs=${VERIF_FUZZ_RUNS:-150000}
+    # runs per process: the cheap properties get more (about five minutes each on 16 cores)
+    local default_runs=150000
+    case "$id" in
+        C13|C14|C18|C19) default_runs=1000000 ;;
+        C08) default_runs=400000 ;;
+    esac
+    local runs=${VERIF_FUZZ_RUNS:-$default_runs}
     if ! build_fuzz; then
         echo "NOTE: libFuzzer stage skipped, its target does not build (see $ROOT/target/fuzz-build.log); the proptest stage stands alone"
         return 0
